@@ -203,6 +203,15 @@ def run_case(case):
                         gbigsmiles.Molecule(tw.text)
                         texts.append(tw.text)
                         cnt["respelled_twins_in_pool"] += 1
+                # ... and with the VALUES of its extensions permuted (same plain text, same sums): a cache keyed by the text makes these interfere
+                if rng.random() < 0.4:
+                    from .c08 import extension_variants
+
+                    for v in extension_variants(subj, rng):
+                        if v.text not in texts:
+                            gbigsmiles.Molecule(v.text)
+                            texts.append(v.text)
+                            cnt["extension_variants_in_pool"] += 1
                 break
             except Exception:
                 continue
